@@ -319,3 +319,14 @@ func (s *Sched) Close() {
 	s.active.Store(false)
 	cur.CompareAndSwap(s, nil)
 }
+
+// Hidden runs f with the race detector's synchronisation handling switched off: atomics used inside
+// create no happens-before edges visible to the detector (harness logs must not mask races).
+func Hidden(f func()) {
+	raceDisable()
+	f()
+	raceEnable()
+}
+
+// Yield is a scheduling point without an object (harness callbacks: logger, send, backend).
+func Yield() { Point(OpAtomic, KNone, nil, nil) }
